@@ -6,6 +6,7 @@ import (
 	"encoding/binary"
 	"fmt"
 	"io"
+	"runtime"
 	"strings"
 
 	wire "github.com/jeroenrinzema/psql-wire"
@@ -133,6 +134,7 @@ func c04Bodies() []struct {
 		{"extended error batch", [][]byte{pgproto.Parse("", "#perr"), pgproto.Bind("", "", nil, nil, nil), pgproto.Execute("", 0), pgproto.Sync()}},
 		{"extended unnamed", [][]byte{pgproto.Parse("", progRows), pgproto.Bind("", "", nil, nil, []int16{1}), pgproto.Execute("", 5), pgproto.Flush(), pgproto.Sync()}},
 		{"bind unknown", [][]byte{pgproto.Bind("", "nope", nil, nil, nil), pgproto.Execute("zz", 0), pgproto.Sync()}},
+		{"failed bind then use of its portal", [][]byte{pgproto.Bind("p", "nope", nil, nil, nil), pgproto.Sync(), pgproto.Describe('P', "p"), pgproto.Execute("p", 0), pgproto.Sync(), pgproto.Bind("", "nope", nil, nil, nil), pgproto.Sync(), pgproto.Execute("", 0), pgproto.Describe('P', ""), pgproto.Sync()}},
 		{"copy text", [][]byte{pgproto.Query("copyt"), pgproto.CopyData([]byte("1\tone\n")), pgproto.CopyData([]byte("2\ttwo\n")), pgproto.CopyDone()}},
 		{"copy text aborted", [][]byte{pgproto.Query("copyt"), pgproto.CopyData([]byte("1\tone\n")), pgproto.CopyFail("no")}},
 		{"copy text + flush/sync", [][]byte{pgproto.Query("copyt"), pgproto.Flush(), pgproto.CopyData([]byte("x")), pgproto.Sync(), pgproto.CopyDone()}},
@@ -239,6 +241,7 @@ type c04Obs struct {
 	reads    int
 	writes   int
 	heap     int64
+	alloc    uint64 // cumulative bytes allocated while the feed was served
 	probe    string
 	probeErr string
 	engine   string
@@ -266,9 +269,11 @@ func c04Run(auth bool, f c04Feed, measureHeap bool) c04Obs {
 	mc.MaxSeg = f.MaxSeg
 	w.rec.Conn = mc
 	mon := &heapMonitor{}
+	var ms0 runtime.MemStats
 	if measureHeap {
 		mon.start()
 		mc.OnRead = mon.onRead
+		runtime.ReadMemStats(&ms0)
 	}
 	if f.Zeros > 0 {
 		mc.PushZeros(f.Stream, f.Zeros)
@@ -293,6 +298,9 @@ func c04Run(auth bool, f c04Feed, measureHeap bool) c04Obs {
 	}
 	mc.OnRead = nil
 	if measureHeap {
+		var ms1 runtime.MemStats
+		runtime.ReadMemStats(&ms1)
+		o.alloc = ms1.TotalAlloc - ms0.TotalAlloc
 		mon.sample()
 		o.heap = mon.excess()
 	}
@@ -595,6 +603,11 @@ func c04RunMutation(t c04Target, f c04Field, v uint64, cutToMatch bool) explore.
 	if !c04Common(&res, o, what) {
 		return res
 	}
+	// a short-lived allocation sized by a declared length is freed before any live-heap sample can see it:
+	// when no (virtual) body has to be skipped, the cumulative allocation of the whole exchange is bounded too
+	if measure && zeros == 0 && o.alloc > 64<<20 {
+		res.Fail("memory-balloon", fmt.Sprintf("%s: %d bytes were allocated while serving a %d-byte exchange (limit %d): an allocation is sized by a length / count the client merely declared", what, o.alloc, len(stream)+len(after), c04Limit))
+	}
 	if measure && o.heap > heapBound(c04Limit) {
 		res.Fail("memory-balloon", fmt.Sprintf("%s: live heap grew by %d bytes while serving the message (bound %d for a limit of %d)", what, o.heap, heapBound(c04Limit), c04Limit))
 	}
@@ -793,17 +806,24 @@ func c04Enumerate(tier string, emit explore.Emit) {
 			continue
 		}
 		s := s
-		whole := c04Run(s.Auth, c04Feed{Stream: s.stream()}, false)
+		// (nothing is executed while enumerating: a crash must be attributed to a case, not to the enumeration;
+		// fault positions beyond the session's actual number of reads / writes are skipped inside the case)
 		add := func(f memnet.Faults, name string) {
 			emit(explore.Case{Family: "transport-fault", Size: 1,
 				Desc: func() any { return map[string]any{"session": s.Name, "fault": name} },
-				Run:  func() explore.Result { return c04RunFault(s, f, name) }})
+				Run: func() explore.Result {
+					whole := c04Whole(s)
+					if f.ReadErrAt > whole.reads+1 || f.ReadShortAt > whole.reads+1 || f.WriteErrAt > whole.writes {
+						return explore.Result{Outcome: "fault-position-beyond-session"}
+					}
+					return c04RunFault(s, f, name)
+				}})
 		}
-		for k := 1; k <= whole.reads+1; k++ {
+		for k := 1; k <= 12; k++ {
 			add(memnet.Faults{ReadErrAt: k}, fmt.Sprintf("read %d fails", k))
 			add(memnet.Faults{ReadShortAt: k}, fmt.Sprintf("read %d is short", k))
 		}
-		for k := 1; k <= whole.writes; k++ {
+		for k := 1; k <= 48; k++ {
 			add(memnet.Faults{WriteErrAt: k}, fmt.Sprintf("write %d fails", k))
 			add(memnet.Faults{WriteErrAt: k, WriteShort: true}, fmt.Sprintf("write %d is short then fails", k))
 		}
